@@ -23,7 +23,7 @@ def replay(pid, path):
             f.write(json.dumps(e) + "\n")
     json.dump(body["table"], open(tb, "w"))
     try:
-        res, _, _ = vlib.tlc_trace(tr, tb, os.path.join(d, "out.json"))
+        res, _, _ = vlib.tlc_trace(tr, tb, os.path.join(d, "out.json"), spec="TraceObs" if body.get("obs") else "TraceContract")
     except Broken as e:
         log("CHECK BROKEN:", e)
         return 2
@@ -123,6 +123,48 @@ PROPS = {
                  "it calls see exactly that window, and on every return / exception / end of run that end and counter are restored",
         "rule": "cases = recursive grammar x nesting depth 0..N+3 x N in 0..3 (depth), byte-limited rule kind (greedy, look-ahead, "
                 "failing, throwing, ...) x start offset x N (bytes), each x configuration; non-trivial = invocations compared with Den",
+    },
+    "C19": {
+        "families": ["obs_lines"],
+        "must_count": ["cases"],
+        "nontrivial_key": "cases",
+        "level": "for every string over {LF, CR, a} up to the bound, every position 0..size (reached by consuming), five end-of-line "
+                 "policies, eager and lazy tracking, default and non-default initial counters, TLC compares at(), begin_of_line(), "
+                 "end_of_line() and line_at() with the declarative line splitter (Lines in ObsContract) and checks that every "
+                 "returned pointer lies inside [data, data + size]",
+        "rule": "cases = input x position x eol policy x tracking x initial counters (exhaustive to the length bound); every record "
+                "is non-trivial (four helper results judged)",
+        "exhaustive": True,
+    },
+    "C17": {
+        "families": ["obs_unescape"],
+        "must_count": ["cases"],
+        "nontrivial_key": "cases",
+        "level": "TLC checks every recorded call of utf8_append_utf32 (all boundaries, sampled or all code points), unescape_j on all "
+                 "sequences of 1..3 escapes from 15 boundary classes, unescape_u/x, unhex_string and unescape_c against the "
+                 "declarative UTF-8 encoder, the surrogate pairing rule and the hex/escape tables of ObsContract",
+        "rule": "cases = helper call with its arguments; non-trivial = every record",
+    },
+    "C16": {
+        "families": ["obs_raw", "ctx"],
+        "must_count": ["cases"],
+        "nontrivial_key": "cases",
+        "level": "the declarative long-bracket definition (opening bracket of level n, one leading line ending skipped, FIRST closing "
+                 "bracket of the same level, content span, other levels ignored, no close => local failure consuming nothing) is "
+                 "evaluated by TLC for every recorded run of raw_string (default and custom characters, with and without content "
+                 "rules, five eol policies) and compared with result, consumed length and the span given to the content action",
+        "rule": "cases = raw_string variant x input (all strings over the bracket/marker/newline/other alphabet to the bound + seeded "
+                "long strings) x eol policy; non-trivial = every record",
+    },
+    "C15": {
+        "families": ["obs_integer", "ctx"],
+        "must_count": ["cases"],
+        "nontrivial_key": "cases",
+        "level": "numeral syntax by the denotation of the documented grammar; values compared as decimal digit strings: every "
+                 "recorded run of the integer rules / actions for 8..64 bit signed and unsigned targets and explicit maxima must "
+                 "either store exactly the numeral's value or report overflow (exception, or local failure for maximum_rule)",
+        "rule": "cases = rule or action x target type / Maximum x input (exhaustive small numerals x signs x trailing byte, boundary "
+                "neighbourhoods of every type limit and power of ten); non-trivial = every record",
     },
     "C01": {
         "families": ["core"],
